@@ -106,6 +106,26 @@ def gen_cases(tier, seed):
             if st[0] == "round":
                 st[1]["adv"] = r.choice([0.001, 0.001, 1.0])
         cases.append({"kind": "seq", "seed": s, "tc": i % 4 == 3, "steps": steps})
+    # a logger that died silently is discovered while acknowledgement copies are fanned out to several loggers
+    for i in range(24 if tier == "quick" else 600):
+        s = rng.getrandbits(32)
+        r = random.Random(s)
+        nlog = r.randint(3, 5)
+        steps = []
+        for k in range(nlog):
+            steps += [["open", f"g{k}"], ["hello", f"g{k}", {"mod_id": 30 + k, "logger": 1}]]
+        steps += [["open", "m"], ["hello", "m", {"mod_id": 22}], ["open", "q"], ["hello", "q", {"mod_id": 23}], ["drain"]]
+        for k in range(nlog):
+            steps.append(["sub", f"g{k}", ALL if r.random() < 0.5 else W.MT_CLIENT_CLOSED])
+            if r.random() < 0.5:
+                steps.append(["sub", f"g{k}", W.MT_FAILED_MESSAGE])
+        steps.append(["drain", {"adv": 0.001}])
+        dead = r.sample(range(nlog), r.choice([1, 1, 2]))
+        for k in dead:
+            steps += [["close", f"g{k}", "rst"], ["await_closed", f"g{k}"]]
+        steps += [["sub", "m", 1234], ["pub", "q", 1234, 0, 0, 8], ["round", {"only": ["m", "q"], "seed": r.getrandbits(30), "adv": 0.001}],
+                  ["drain", {"adv": 0.001}], ["sub", "q", 1235], ["drain", {"adv": 0.001}]]
+        cases.append({"kind": "mix", "seed": s, "tc": i % 3 == 2, "steps": steps})
     for i in range(n_free):
         cases.append({"kind": "free", "seed": rng.getrandbits(32), "tc": i % 3 == 2, "npub": rng.randint(2, 8),
                       "nsub": rng.randint(2, 4), "nmsg": rng.choice([200, 500, 1200]), "timeout": 60})
